@@ -89,6 +89,11 @@ func c07Scenario(t *testing.T, idx int, seed uint64) {
 			if r.Intn(4) == 0 {
 				n = 5 + r.Intn(36)
 			}
+			if r.Intn(12) == 0 {
+				// as many filters as make the SUBACK's remaining length cross the one-byte limit (125/126 codes)
+				n = []int{124, 125, 126, 127, 128, 200, 300}[r.Intn(7)]
+				out.Count("c07.subscribes_with_over_100_filters", 1)
+			}
 			req := &rc.Packet{Type: rc.SUBSCRIBE, ID: a.ids.next()}
 			kinds := make([]string, n)
 			for i := 0; i < n; i++ {
@@ -185,6 +190,9 @@ func c07Scenario(t *testing.T, idx int, seed uint64) {
 			m := 1 + r.Intn(5)
 			if r.Intn(4) == 0 {
 				m = 5 + r.Intn(36)
+			}
+			if r.Intn(12) == 0 {
+				m = []int{124, 125, 126, 127, 128, 200, 300}[r.Intn(7)]
 			}
 			var held []string
 			for f := range a.subs {
